@@ -112,6 +112,14 @@ func H_C18_newmodel(v *zzverif.T) {
 				if d0 < 0 || n != zzRawElemSize(rawdt)*d0 {
 					decodable = false
 				}
+				if v.Has("hugedims") {
+					// extents far beyond anything that fits in memory: refused, never allocated
+					tp.Dims = nil
+					for _, d := range v.CInts("hugedims") {
+						tp.Dims = append(tp.Dims, int64(d))
+					}
+					decodable = false
+				}
 			} else {
 				tp.DataType = zzverif.Sym[int32](v, fmt.Sprintf("dtype%d", i))
 				if anyDtype {
@@ -207,6 +215,17 @@ func H_C18_unknown_op(v *zzverif.T) {
 		}
 		if i < len(nodes) {
 			all = append(all, nodes[i])
+		}
+	}
+	if v.Has("names") {
+		// node names need not be unique, and need not be there at all
+		for i, n := range all {
+			switch v.CStr("names") {
+			case "same":
+				n.Name = "act"
+			case "distinct":
+				n.Name = fmt.Sprintf("node%d", i)
+			}
 		}
 	}
 	outs := []*onnx.ValueInfoProto{{Name: "b"}}
